@@ -868,6 +868,15 @@ func c04Monitor(c ACase, o aObs) string {
 	if ms["@timestamp"] != want.String() {
 		return fmt.Sprintf("C04: ToMapStr @timestamp=%v, header has %v", ms["@timestamp"], want)
 	}
+	// "always": also after a consumer has edited the map it was handed
+	delete(ms, "raw_msg")
+	ms["sequence"] = 0
+	ms["record_type"] = "edited"
+	delete(ms, "@timestamp")
+	ms2 := m.ToMapStr()
+	if ms2["record_type"] != auparse.AuditMessageType(h.Typ).String() || ms2["sequence"] != strconv.FormatUint(uint64(h.Seq), 10) || ms2["raw_msg"] != raw || ms2["@timestamp"] != want.String() {
+		return fmt.Sprintf("C04: ToMapStr, called again after the caller edited the map it was given, reports record_type=%v sequence=%v @timestamp=%v raw_msg present=%v", ms2["record_type"], ms2["sequence"], ms2["@timestamp"], ms2["raw_msg"] != nil)
+	}
 	return ""
 }
 
